@@ -214,3 +214,21 @@ package swamp
 //@   before Treasure.Clone [snapshot_taken_under_the_guard] calls("Treasure.StartTreasureGuard") == old(calls("Treasure.StartTreasureGuard")) + 1 && arg1 == lastret("Treasure.StartTreasureGuard") && calls("Treasure.ReleaseTreasureGuard") == old(calls("Treasure.ReleaseTreasureGuard"))
 //@   ensures[one_deleted_event_per_removed_record] !isnil(deleted) ==> calls("swamp.sendDeletedEventToClient") == old(calls("swamp.sendDeletedEventToClient")) + 1
 //@   ensures[guard_released] calls("Treasure.ReleaseTreasureGuard") - old(calls("Treasure.ReleaseTreasureGuard")) == calls("Treasure.StartTreasureGuard") - old(calls("Treasure.StartTreasureGuard"))
+
+// ---------------------------------------------------------------------------------------
+// Close (property C17): whoever waits for a swamp to close waits for its closed event (the
+// callback hydra registered) and for the swamp's goroutines to be cancelled. A Close that starts
+// closing (it reaches the flush of the pending records) always runs to its end, whatever the
+// chronicler or the metadata writer answer: it reports the closed event exactly once. A Close
+// that finds the swamp already closing does nothing.
+//@ func (*swamp).sendClosedEvent(s)
+//@   opaque
+//@ func (*swamp).dropAllBuckets(s)
+//@   opaque
+//@ func (*swamp).Close(s)
+//@   property C17
+//@   modifies *
+//@   ensures[started_close_reports_closed] old(s.closing) != 1 ==> calls("swamp.sendClosedEvent") == old(calls("swamp.sendClosedEvent")) + 1
+//@   ensures[flushing_close_reports_closed] calls("swamp.fileWriterHandler") > old(calls("swamp.fileWriterHandler")) ==> calls("swamp.sendClosedEvent") == old(calls("swamp.sendClosedEvent")) + 1
+//@   ensures[closed_event_after_buckets_dropped] calls("swamp.sendClosedEvent") > old(calls("swamp.sendClosedEvent")) ==> calls("swamp.dropAllBuckets") == old(calls("swamp.dropAllBuckets")) + 1
+//@   ensures[already_closing_is_a_no_op] old(s.closing) == 1 ==> calls("swamp.sendClosedEvent") == old(calls("swamp.sendClosedEvent")) && calls("swamp.fileWriterHandler") == old(calls("swamp.fileWriterHandler"))
